@@ -12,4 +12,10 @@ with V.Lock():
         print('setup: Coq build failed', file=sys.stderr); sys.exit(1)
     V.build_model_driver()
     V.build_linuxport(); V.build_race()
+    # optional builds (clang): the checks fall back gracefully when one of them is not available
+    try:
+        V.build_harness_cov(); V.build_harness_msan()
+        import leafcheck; leafcheck.main()
+    except Exception as e:
+        print('setup: optional build skipped:', e)
 print('setup ok')
